@@ -9,9 +9,14 @@ Open Scope string_scope.
    prints exactly what the reference semantics prescribe": for EVERY program of the core that a
    PHP front end accepts ([wf]) and that stays outside the recorded defect classes ([clean]), and
    for EVERY fuel, the implementation's interpreter and the reference interpreter produce the same
-   echoed text and the same kind of ending (normal / uncaught error / out of fuel). *)
-Theorem impl_refines_ref : forall fuel p, wf p = true -> clean p = true ->
-  run_impl fuel p = run_ref fuel p.
+   echoed text and the same kind of ending (normal / uncaught error / out of fuel).
+   The AST also contains try/catch/finally and throw (property C05); the two interpreters take the
+   catch-type test as a parameter ([cmi]: the walk the code performs, [cmr]: "the class, an ancestor
+   or an implemented interface"), and the theorem asks that the two tests agree — C05 discharges
+   that from C08's theorems; programs without catch clauses never consult it. *)
+Theorem impl_refines_ref : forall cmi cmr, (forall t v, cmi t v = cmr t v) ->
+  forall fuel p, wf p = true -> clean p = true ->
+  run_impl cmi fuel p = run_ref cmr fuel p.
 Proof. exact impl_refines_ref_l. Qed.
 Print Assumptions impl_refines_ref.
 
@@ -21,11 +26,12 @@ Print Assumptions impl_refines_ref.
    state, and the control the implementation returns — a level counter — denotes, under [stk],
    exactly the construct identifier the reference semantics resolved statically ([crel]):
    IBrk k ~ RBrk l iff the k-th enclosing construct is l, IRet v ~ RRet v, nothing else. *)
-Theorem exits_reach_named_construct : forall p, wf p = true -> clean p = true ->
+Theorem exits_reach_named_construct : forall cmi cmr, (forall t v, cmi t v = cmr t v) ->
+  forall p, wf p = true -> clean p = true ->
   forall fuel fn s stk path fr g,
   scoped (List.length stk) s = true -> one_default s = true -> clean_stmt (is_main fn) s = true ->
   shorter stk path ->
-  rrel stk (iexec (funcs p) fuel fn s fr g) (rexec (funcs p) fuel fn (resolve stk path s) fr g).
+  rrel stk (iexec cmi (funcs p) fuel fn s fr g) (rexec cmr (funcs p) fuel fn (resolve stk path s) fr g).
 Proof. exact exits_named_l. Qed.
 Print Assumptions exits_reach_named_construct.
 
@@ -69,31 +75,31 @@ Proof. exact call_frames_l. Qed.
 Print Assumptions call_leaves_caller_frame.
 (* ... and the call function the statement interpreter builds runs the body in a frame that
    contains the bound parameters and nothing else, and drops that frame afterwards *)
-Theorem callee_frame_is_fresh : forall funs n f vs g,
-  icallf funs n f vs g =
+Theorem callee_frame_is_fresh : forall cm funs n f vs g,
+  icallf cm funs n f vs g =
   match find_fun funs f with
   | None => Some (EX (err "undefined function"), g)
   | Some d =>
-      match iexec funs n f (fbody d) (bind_params (fparams d) vs [], []) g with
+      match iexec cm funs n f (fbody d) (bind_params (fparams d) vs [], []) g with
       | Fuel => None
       | Res c _ g' => Some (call_result c, g')
       end
   end.
-Proof. exact (fun _ _ _ _ _ => eq_refl). Qed.
+Proof. exact (fun _ _ _ _ _ _ => eq_refl). Qed.
 Print Assumptions callee_frame_is_fresh.
 
 (* The refinement is FALSE outside [clean]; one witness per recorded defect class (each replayed
    on the real interpreter by the check: KNOWN_FINDINGS keys switch:fallthrough:* and
    static:main-scope). *)
 Theorem switch_fallthrough_refuted :
-  wf w_fallthrough = true /\ run_impl 50 w_fallthrough = ("a", EndOk) /\ run_ref 50 w_fallthrough = ("ab", EndOk).
+  wf w_fallthrough = true /\ run_impl no_catch 50 w_fallthrough = ("a", EndOk) /\ run_ref no_catch 50 w_fallthrough = ("ab", EndOk).
 Proof. exact switch_fallthrough_refuted_l. Qed.
 Theorem switch_case_group_refuted :
-  wf w_case_group = true /\ run_impl 50 w_case_group = ("", EndOk) /\ run_ref 50 w_case_group = ("x", EndOk).
+  wf w_case_group = true /\ run_impl no_catch 50 w_case_group = ("", EndOk) /\ run_ref no_catch 50 w_case_group = ("x", EndOk).
 Proof. exact switch_case_group_refuted_l. Qed.
 Theorem switch_default_not_last_refuted :
-  wf w_default_first = true /\ run_impl 50 w_default_first = ("d", EndOk) /\ run_ref 50 w_default_first = ("d1", EndOk).
+  wf w_default_first = true /\ run_impl no_catch 50 w_default_first = ("d", EndOk) /\ run_ref no_catch 50 w_default_first = ("d1", EndOk).
 Proof. exact switch_default_not_last_refuted_l. Qed.
 Theorem static_in_main_refuted :
-  wf w_static_main = true /\ run_impl 50 w_static_main = ("11", EndOk) /\ run_ref 50 w_static_main = ("12", EndOk).
+  wf w_static_main = true /\ run_impl no_catch 50 w_static_main = ("11", EndOk) /\ run_ref no_catch 50 w_static_main = ("12", EndOk).
 Proof. exact static_in_main_refuted_l. Qed.
